@@ -23,6 +23,18 @@ Proof.
   induction kids as [|[k c] ks IHk]; constructor; [apply IH | exact IHk].
 Qed.
 
+Section W.
+Variable xw : list nat -> list nat.
+Local Notation pstep := (CallTree.pstep xw).
+Local Notation step := (CallTree.step xw).
+Local Notation steps := (CallTree.steps xw).
+Local Notation pstep_fun := (CallTree.pstep_fun xw).
+Local Notation exec := (CallTree.exec xw).
+Local Notation evalx := (CallTree.evalx xw).
+Local Notation evalkx := (CallTree.evalkx xw).
+Local Notation evalroot := (CallTree.evalroot xw).
+Local Notation seen_by := (CallTree.seen_by xw).
+
 Definition can_serve (p:peer) := inbox p = [] /\ (stack p = [] \/ exists q K, stack p = FWait q :: K).
 
 (* what "running [FRun r n ks acc] on top of K at peer s to completion" means *)
@@ -34,7 +46,7 @@ Definition runs_to (s:side) (f:side->peer) (l:list nat) (res:option outcome)
 
 Definition P (k:node) : Prop := forall r s f l res K,
   stack (f s) = FRun r k (nkids k) 0 :: K -> inbox (f s) = [] -> can_serve (f (other s)) ->
-  runs_to s f l res r K (evalk k (nkids k) 0).
+  runs_to s f l res r K (evalkx s k (nkids k) 0).
 
 Lemma step1 s y y' : pstep s y y' -> steps y y'.
 Proof. intros H. apply rt_step. now exists s. Qed.
@@ -44,12 +56,12 @@ Proof. apply rt_trans. Qed.
 Lemma kids_run n : forall ks, Forall (fun kc => P (fst kc)) ks ->
   forall acc r s f l res K,
   stack (f s) = FRun r n ks acc :: K -> inbox (f s) = [] -> can_serve (f (other s)) ->
-  runs_to s f l res r K (evalk n ks acc).
+  runs_to s f l res r K (evalkx s n ks acc).
 Proof.
   induction ks as [|[k c] ks IH]; intros HF acc r s f l res K Hst Hib Hcs.
   - (* no kids left: finish *)
     eexists. split; [|split; [|split; [|split]]].
-    + cbn [evalk fst]. rewrite app_nil_r. apply step1 with (s:=s).
+    + cbn [CallTree.evalkx fst]. rewrite app_nil_r. apply step1 with (s:=s).
       eapply st_fin. rewrite (peer_eta (f s)), Hst, Hib. reflexivity.
     + rewrite upd_same. reflexivity.
     + rewrite upd_same. reflexivity.
@@ -57,40 +69,40 @@ Proof.
     + rewrite upd_other. apply Hcs.
   - inversion HF as [|? ? Pk HF']; subst. cbn [fst] in Pk.
     (* common continuation once the child's outcome sits in FRet None on top of the FCall frame *)
-    assert (CONT: forall f1 (lo:list nat * outcome),
-        stack (f1 s) = FRet None (snd lo) :: FCall r n ks acc c :: K -> inbox (f1 s) = [] ->
+    assert (CONT: forall f1 (lk:list nat) (o0 ok:outcome),
+        stack (f1 s) = FRet None ok :: FCall r n ks acc c :: K -> inbox (f1 s) = [] ->
         can_serve (f1 (other s)) ->
-        steps (mk f l res) (mk f1 (l ++ nid k :: fst lo) res) ->
+        steps (mk f l res) (mk f1 (l ++ nid k :: lk) res) ->
         stack (f1 (other s)) = stack (f (other s)) ->
-        lo = evalk k (nkids k) 0 ->
-        runs_to s f l res r K (evalk n ((k,c)::ks) acc)).
-    { intros f1 lo Hs1 Hi1 Hc1 Hsteps Hoth Hlo.
-      cbn [evalk]. rewrite (eval_evalk k), <- Hlo. destruct lo as [lk [v|e]]; cbn [fst snd] in *.
+        (lk, o0) = evalkx (nside k) k (nkids k) 0 -> ok = seen_by s k o0 ->
+        runs_to s f l res r K (evalkx s n ((k,c)::ks) acc)).
+    { intros f1 lk o0 ok Hs1 Hi1 Hc1 Hsteps Hoth Hlo Hok.
+      cbn [CallTree.evalkx]. rewrite (evalx_evalkx xw k), <- Hlo, <- Hok. destruct ok as [v|e]; cbn [fst snd] in *.
       - (* value *)
         destruct (IH HF' (acc+v) r s
                     (upd f1 s {| stack := FRun r n ks (acc+v) :: K; nseq := nseq (f1 s); inbox := [] |})
                     (l ++ nid k :: lk) res K) as (f2 & S2 & A & B & C & D).
         { now rewrite upd_same. } { now rewrite upd_same. } { now rewrite upd_other. }
-        destruct (evalk n ks (acc+v)) as [l2 o2] eqn:E2. cbn [fst snd] in *.
+        destruct (evalkx s n ks (acc+v)) as [l2 o2] eqn:E2. cbn [fst snd] in *.
         exists f2. split; [|split; [|split; [|split]]]; auto.
         + eapply steps_trans; [exact Hsteps|]. eapply steps_trans; [|rewrite <- app_assoc in S2; exact S2].
           apply step1 with (s:=s). eapply st_ret_val. rewrite (peer_eta (f1 s)), Hs1, Hi1. reflexivity.
         + rewrite C, upd_other. exact Hoth.
-      - destruct c.
+      - destruct (catches c e) eqn:Ec.
         + (* caught *)
           destruct (IH HF' acc r s
                       (upd f1 s {| stack := FRun r n ks acc :: K; nseq := nseq (f1 s); inbox := [] |})
                       (l ++ nid k :: lk) res K) as (f2 & S2 & A & B & C & D).
           { now rewrite upd_same. } { now rewrite upd_same. } { now rewrite upd_other. }
-          destruct (evalk n ks acc) as [l2 o2] eqn:E2. cbn [fst snd] in *.
+          destruct (evalkx s n ks acc) as [l2 o2] eqn:E2. cbn [fst snd] in *.
           exists f2. split; [|split; [|split; [|split]]]; auto.
           * eapply steps_trans; [exact Hsteps|]. eapply steps_trans; [|rewrite <- app_assoc in S2; exact S2].
-            apply step1 with (s:=s). eapply st_ret_caught. rewrite (peer_eta (f1 s)), Hs1, Hi1. reflexivity.
+            apply step1 with (s:=s). eapply st_ret_caught; [rewrite (peer_eta (f1 s)), Hs1, Hi1; reflexivity|exact Ec].
           * rewrite C, upd_other. exact Hoth.
         + (* uncaught: propagate *)
           eexists. split; [|split; [|split; [|split]]].
           * cbn [fst]. eapply steps_trans; [exact Hsteps|].
-            apply step1 with (s:=s). eapply st_ret_uncaught. rewrite (peer_eta (f1 s)), Hs1, Hi1. reflexivity.
+            apply step1 with (s:=s). eapply st_ret_uncaught; [rewrite (peer_eta (f1 s)), Hs1, Hi1; reflexivity|exact Ec].
           * now rewrite upd_same.
           * now rewrite upd_same.
           * now rewrite upd_other.
@@ -101,7 +113,10 @@ Proof.
       set (f0 := upd f s {| stack := FRun None k (nkids k) 0 :: FCall r n ks acc c :: K; nseq := nseq (f s); inbox := [] |}).
       destruct (Pk None s f0 (l ++ [nid k]) res (FCall r n ks acc c :: K)) as (f1 & S1 & A & B & C & D).
       { unfold f0. now rewrite upd_same. } { unfold f0. now rewrite upd_same. } { unfold f0. now rewrite upd_other. }
-      eapply (CONT f1 (evalk k (nkids k) 0)); auto.
+      assert (Es2 : evalkx s k (nkids k) 0 = evalkx (nside k) k (nkids k) 0) by now rewrite Eside.
+      rewrite Es2 in S1, A. destruct (evalkx (nside k) k (nkids k) 0) as [lk0 ok0] eqn:Ek. cbn [fst snd] in *.
+      assert (Hsb : ok0 = seen_by s k ok0) by (unfold CallTree.seen_by; rewrite Eside, side_eqb_refl; reflexivity).
+      eapply (CONT f1 lk0 ok0 ok0); auto.
       * split; [exact D|]. rewrite C. unfold f0. rewrite upd_other. apply Hcs.
       * eapply steps_trans; [|rewrite <- app_assoc in S1; exact S1].
         apply step1 with (s:=s). eapply st_local; [|exact Eside]. rewrite (peer_eta (f s)), Hst, Hib. reflexivity.
@@ -134,21 +149,23 @@ Proof.
       { rewrite Hoo, F1s, F0s. split; [reflexivity|]. right. cbn [stack]. eauto. }
       rewrite Hoo in C, D. rewrite F1s, F0s in C. cbn [stack] in C.
       (* 3. the peer replies *)
-      set (lo := evalk k (nkids k) 0) in *.
-      set (f3 := send (upd f2 o {| stack := stack (f o); nseq := nseq (f2 o); inbox := [] |}) (other o) (Rep q (snd lo))).
+      assert (Eok : o = nside k) by (symmetry; exact Eside).
+      set (lo := evalkx o k (nkids k) 0) in *.
+      set (ok := cross xw (snd lo)).
+      set (f3 := send (upd f2 o {| stack := stack (f o); nseq := nseq (f2 o); inbox := [] |}) (other o) (Rep q ok)).
       assert (S3: steps (mk f2 ((l ++ [nid k]) ++ fst lo) res) (mk f3 ((l ++ [nid k]) ++ fst lo) res)).
       { apply step1 with (s:=o). unfold f3. eapply st_ret_remote.
         rewrite (peer_eta (f2 o)), A, B. reflexivity. }
-      assert (F3s: f3 s = {| stack := FWait q :: FCall r n ks acc c :: K; nseq := nseq (f2 s); inbox := [Rep q (snd lo)] |}).
+      assert (F3s: f3 s = {| stack := FWait q :: FCall r n ks acc c :: K; nseq := nseq (f2 s); inbox := [Rep q ok] |}).
       { unfold f3. rewrite Hoo, send_same. unfold upd. rewrite Eso, C, D. reflexivity. }
       assert (F3o: f3 o = {| stack := stack (f o); nseq := nseq (f2 o); inbox := [] |}).
       { unfold f3. rewrite Hoo. unfold send, upd. rewrite Eos, side_eqb_refl. reflexivity. }
       (* 4. s matches the reply to its wait frame *)
-      set (f4 := upd f3 s {| stack := FRet None (snd lo) :: FCall r n ks acc c :: K; nseq := nseq (f2 s); inbox := [] |}).
+      set (f4 := upd f3 s {| stack := FRet None ok :: FCall r n ks acc c :: K; nseq := nseq (f2 s); inbox := [] |}).
       assert (S4: steps (mk f3 ((l ++ [nid k]) ++ fst lo) res) (mk f4 ((l ++ [nid k]) ++ fst lo) res)).
       { apply step1 with (s:=s). unfold f4. eapply st_reply. rewrite F3s. reflexivity. }
       assert (F4o: f4 o = f3 o) by (unfold f4, upd; now rewrite Eos).
-      eapply (CONT f4 lo); auto.
+      eapply (CONT f4 (fst lo) (snd lo) ok); auto.
       * unfold f4. now rewrite upd_same.
       * unfold f4. now rewrite upd_same.
       * fold o. rewrite F4o, F3o. split; [reflexivity|exact Hos].
@@ -156,6 +173,8 @@ Proof.
         eapply steps_trans; [exact S0|]. eapply steps_trans; [exact S1|].
         eapply steps_trans; [exact S2|]. eapply steps_trans; [exact S3|exact S4].
       * fold o. rewrite F4o, F3o. reflexivity.
+      * rewrite <- Eok. unfold lo. now destruct (evalkx o k (nkids k) 0).
+      * unfold ok, CallTree.seen_by. rewrite <- Eok, Eos. reflexivity.
 Qed.
 
 Theorem node_runs : forall k, P k.
@@ -166,14 +185,14 @@ Qed.
 
 Theorem distributed_eq_local root :
   exists f' : side -> peer,
-    steps (init root) (mk f' (fst (eval root)) (Some (snd (eval root)))) /\
+    steps (init root) (mk f' (fst (evalroot root)) (Some (snd (evalroot root)))) /\
     stack (f' SA) = [] /\ stack (f' SB) = [] /\ inbox (f' SA) = [] /\ inbox (f' SB) = [].
 Proof.
   destruct (node_runs root None SA
      (fun t => match t with SA => {| stack := [FRun None root (nkids root) 0]; nseq := 0; inbox := [] |} | SB => idle end)
      [nid root] None []) as (f1 & S1 & A & B & C & D); try reflexivity.
   { split; [reflexivity| left; reflexivity]. }
-  rewrite (eval_evalk root). destruct (evalk root (nkids root) 0) as [l o]. cbn [fst snd] in *.
+  unfold CallTree.evalroot. destruct (evalkx SA root (nkids root) 0) as [l o]. cbn [fst snd] in *.
   exists (upd f1 SA {| stack := []; nseq := nseq (f1 SA); inbox := [] |}). split; [|repeat split].
   - eapply steps_trans; [exact S1|]. apply step1 with (s:=SA). eapply st_root.
     rewrite (peer_eta (f1 SA)), A, B. reflexivity.
@@ -187,7 +206,7 @@ Proof. now destruct y. Qed.
 
 Lemma pstep_fun_sound s y y' : pstep_fun s y = Some y' -> pstep s y y'.
 Proof.
-  unfold pstep_fun. rewrite (sys_eta y) at 2. cbn [peers log result mk].
+  unfold CallTree.pstep_fun. rewrite (sys_eta y) at 2. cbn [peers log result mk].
   set (f := peers y). set (l := log y). set (res := result y).
   destruct (stack (f s)) as [|fr K] eqn:Es.
   - destruct (inbox (f s)) as [|[rq k|q1 o] ib'] eqn:Ei; try discriminate. intros [= <-].
@@ -206,9 +225,9 @@ Proof.
         -- destruct fr2 as [| r n ks acc c | |]; try discriminate.
            destruct o as [v|e].
            ++ intros [= <-]. eapply st_ret_val. rewrite (peer_eta (f s)), Es. reflexivity.
-           ++ destruct c; intros [= <-].
-              ** eapply st_ret_caught. rewrite (peer_eta (f s)), Es. reflexivity.
-              ** eapply st_ret_uncaught. rewrite (peer_eta (f s)), Es. reflexivity.
+           ++ destruct (catches c e) eqn:Ec; intros [= <-].
+              ** eapply st_ret_caught; [rewrite (peer_eta (f s)), Es; reflexivity|exact Ec].
+              ** eapply st_ret_uncaught; [rewrite (peer_eta (f s)), Es; reflexivity|exact Ec].
     + destruct (inbox (f s)) as [|[rq k|q1 o] ib'] eqn:Ei; try discriminate.
       * intros [= <-]. eapply st_nested. rewrite (peer_eta (f s)), Es, Ei. reflexivity.
       * destruct (Nat.eqb_spec q1 q0); [|discriminate]. subst. intros [= <-].
@@ -220,11 +239,13 @@ Proof.
   intros H. destruct H as
     [f l res r n acc K q ib E | f l res r n k c ks acc K q ib E Hs | f l res r n k c ks acc K q ib E Hs
     | f l res q0 o K q ib E | f l res q0 rq k K q ib E | f l res rq k q ib E | f l res rq o K q ib E
-    | f l res v r n ks acc c K q ib E | f l res e r n ks acc K q ib E | f l res e r n ks acc K q ib E | f l o q ib E];
-  unfold pstep_fun; cbn [peers log result mk]; rewrite E; cbn [stack nseq inbox]; try reflexivity.
+    | f l res v r n ks acc c K q ib E | f l res e r n ks acc c K q ib E Hc | f l res e r n ks acc c K q ib E Hc | f l o q ib E];
+  unfold CallTree.pstep_fun; cbn [peers log result mk]; rewrite E; cbn [stack nseq inbox]; try reflexivity.
   - rewrite Hs. now rewrite side_eqb_refl.
   - rewrite Hs. now rewrite side_eqb_other.
   - now rewrite Nat.eqb_refl.
+  - now rewrite Hc.
+  - now rewrite Hc.
 Qed.
 
 Theorem pstep_deterministic s y y1 y2 : pstep s y y1 -> pstep s y y2 -> y1 = y2.
@@ -317,7 +338,7 @@ Proof.
   destruct H as
     [f l res r n acc K q ib E | f l res r n k c ks acc K q ib E Hs | f l res r n k c ks acc K q ib E Hs
     | f l res q0 o K q ib E | f l res q0 rq k K q ib E | f l res rq k q ib E | f l res rq o K q ib E
-    | f l res v r n ks acc c K q ib E | f l res e r n ks acc K q ib E | f l res e r n ks acc K q ib E | f l o q ib E];
+    | f l res v r n ks acc c K q ib E | f l res e r n ks acc c K q ib E Hc | f l res e r n ks acc c K q ib E Hc | f l o q ib E];
   cbn [peers mk] in *.
   (* the moving side's own record *)
   all: pose proof (SO s) as SOs; rewrite E in SOs; cbn [stack served_ok reply_to] in SOs.
@@ -373,7 +394,7 @@ Proof.
     destruct (tok_busy _ s T) as (Qo & Is & Io); [cbn [peers mk]; rewrite E; cbn [stack]; auto|];
     cbn [peers mk] in Qo, Is, Io; rewrite E in Is; cbn [inbox] in Is; subst ib.
     destruct SOs as [A B]. assert (QK : quiet K) by (apply B; discriminate).
-    apply (tok_intro_msg _ _ _ (other s) (Rep rq o)).
+    apply (tok_intro_msg _ _ _ (other s) (Rep rq (cross xw o))).
     + intros t. per_side t s; [exact A|apply SO].
     + intros t. per_side t s; auto.
     + norm_upd. now rewrite Io.
@@ -468,10 +489,10 @@ Qed.
 (* 1. whatever the interleaving, an execution that delivers a result delivers the local one, having invoked exactly the
       nodes the local evaluation invokes, in the same order, each once *)
 Theorem every_execution_is_local root y o : steps (init root) y -> result y = Some o ->
-  o = snd (eval root) /\ log y = fst (eval root).
+  o = snd (evalroot root) /\ log y = fst (evalroot root).
 Proof.
   intros Hy Hr. destruct (distributed_eq_local root) as (f' & HF & A & B & C & D).
-  set (F := mk f' (fst (eval root)) (Some (snd (eval root)))) in *.
+  set (F := mk f' (fst (evalroot root)) (Some (snd (evalroot root)))) in *.
   assert (Ty : Tok2 y) by (eapply tok2_steps; [apply tok2_init|exact Hy]).
   assert (Sy : forall y', ~ step y y').
   { intros y' [s St]. eapply stuck_when_quiet; [|exact St]. apply (proj2 Ty). congruence. }
@@ -485,7 +506,7 @@ Qed.
 (* 2. no execution gets stuck or runs forever before the result is delivered: an unfinished reachable state always has a step,
       and it lies on the one path to the final state *)
 Theorem no_deadlock_before_result root y : steps (init root) y -> result y = None ->
-  (exists y', step y y') /\ exists f', steps y (mk f' (fst (eval root)) (Some (snd (eval root)))).
+  (exists y', step y y') /\ exists f', steps y (mk f' (fst (evalroot root)) (Some (snd (evalroot root)))).
 Proof.
   intros Hy Hr. destruct (distributed_eq_local root) as (f' & HF & A & B & C & D).
   apply clos_rt_rt1n in Hy. pose proof HF as HF'. apply clos_rt_rt1n in HF.
@@ -503,3 +524,40 @@ Proof.
   - destruct (pstep_fun SB y) as [y1|] eqn:EB; [|apply rt_refl].
     apply (rt_trans _ _ _ y1); [apply rt_step; exists SB; apply pstep_fun_sound; exact EB|apply IH].
 Qed.
+End W.
+
+(* ---- when the connection reproduces exception classes, the evaluation seen through it is the one-process evaluation ---- *)
+Section Identity.
+Variable xw : list nat -> list nat.
+Hypothesis xw_id : forall m, xw m = m.
+Lemma cross_id o : cross xw o = o.
+Proof. destruct o as [v|[i m]]; cbn; [reflexivity|now rewrite xw_id]. Qed.
+Lemma seen_by_id s k o : seen_by xw s k o = o.
+Proof. unfold seen_by. destruct (side_eqb (nside k) s); [reflexivity|apply cross_id]. Qed.
+Lemma evalkx_id n s : forall ks acc, Forall (fun kc => evalx xw (fst kc) = eval (fst kc)) ks -> evalkx xw s n ks acc = evalk n ks acc.
+Proof.
+  induction ks as [|[k c] ks IH]; intros acc HF; [reflexivity|]. inversion HF as [|? ? Hk HF']; subst. cbn [fst] in Hk.
+  cbn [evalkx evalk]. rewrite Hk. destruct (eval k) as [l1 o0]. rewrite seen_by_id.
+  destruct o0 as [v|e]; [now rewrite IH|destruct (catches c e); [now rewrite IH|reflexivity]].
+Qed.
+Lemma evalx_id : forall n, evalx xw n = eval n.
+Proof.
+  induction n as [s i kids r HF] using node_ind'. rewrite evalx_evalkx, eval_evalk. cbn [nside nkids nid].
+  now rewrite (evalkx_id (Node s i kids r) s kids 0 HF).
+Qed.
+Lemma evalroot_id root : evalroot xw root = eval root.
+Proof.
+  unfold evalroot. rewrite eval_evalk. rewrite evalkx_id; [reflexivity|]. apply Forall_forall. intros kc _. apply evalx_id.
+Qed.
+
+Theorem distributed_eq_local_id root : exists f' : side -> peer,
+  steps xw (init root) (mk f' (fst (eval root)) (Some (snd (eval root)))) /\
+  stack (f' SA) = [] /\ stack (f' SB) = [] /\ inbox (f' SA) = [] /\ inbox (f' SB) = [].
+Proof. rewrite <- evalroot_id. apply distributed_eq_local. Qed.
+Theorem every_execution_is_local_id root y o : steps xw (init root) y -> result y = Some o ->
+  o = snd (eval root) /\ log y = fst (eval root).
+Proof. rewrite <- evalroot_id. apply every_execution_is_local. Qed.
+Theorem no_deadlock_before_result_id root y : steps xw (init root) y -> result y = None ->
+  (exists y', step xw y y') /\ exists f', steps xw y (mk f' (fst (eval root)) (Some (snd (eval root)))).
+Proof. rewrite <- evalroot_id. apply no_deadlock_before_result. Qed.
+End Identity.
